@@ -333,6 +333,13 @@ class C11(PoolCheck):
             muts.append([m, rng.randrange(0, max(1, min(24, body.count(self.MUTATIONS[m][1]))))])
         case = {'kind': 'lexical', 'entry': key, 'doc': di, 'muts': muts, 'api': rng.choice(APIS),
                 'lazy': rng.choice([0, 0, 1, 2]), 'src': {'ch': 'bytes'}, 'hints': rng.random() < 0.3}
+        if rng.random() < 0.15:
+            # decoding through the other converters, with and without keeping unknown content
+            case['api'] = rng.choice(['decode_lax', 'decode_lax', 'decode', 'decode_skip'])
+            case['conv'] = rng.choice(['badgerfish', 'gdata', 'columnar', 'jsonml', 'parker', 'abdera', 'unordered',
+                                       'dataelement'])
+            case['keep_unknown'] = rng.random() < 0.5
+            case['lazy'] = rng.choice([0, 0, 1])
         if rng.random() < 0.12:
             case['muts'] = []
             case['reencode'] = rng.choice(self.REENCODINGS)
@@ -363,7 +370,8 @@ class C11(PoolCheck):
         return data, changed
 
     # ------------------------------------------------------------------
-    def call(self, schema, source, api, lazy, keep, defuse=None, hints=False, iterparse=None):
+    def call(self, schema, source, api, lazy, keep, defuse=None, hints=False, iterparse=None, conv=None,
+             keep_unknown=None):
         """Returns canonical result; exception object kept for identity checks."""
         import xmlschema
         try:
@@ -381,6 +389,10 @@ class C11(PoolCheck):
                 r = xmlschema.to_json(source, schema=schema, validation='lax', lazy=bool(lazy))
                 return {'k': 'ok', 'v': ['json', bool(r[1]) if isinstance(r, tuple) else False]}
             op = {'api': api, 'lazy': lazy}
+            if conv:
+                op['conv'] = conv
+                if keep_unknown:
+                    op['keep_unknown'] = True
             if hints and api in ('iter_errors', 'is_valid', 'decode_lax', 'validate', 'decode'):
                 # the package-level functions follow location hints by default; here on the schema's own methods
                 res = ops.call_api(schema, source, op, {'use_location_hints': True})
@@ -624,12 +636,14 @@ class C11(PoolCheck):
             data, changed = self.reencode(doc.data, case['reencode']), True
         keep = {}
         res = jcopy(self.call(e.schema, data, case['api'], case['lazy'], keep, hints=case.get('hints'),
-                              iterparse=case.get('iterparse')))
+                              conv=case.get('conv'), keep_unknown=case.get('keep_unknown')))
         violations = []
         lax = case['api'] in LAX_APIS and not isinstance(data, str)
         sig = self.class_violation(res, keep, case['api'], {}, lax)
         if sig:
             sig.update(lazy=bool(case['lazy']))
+            if case.get('conv'):
+                sig.update(conv=case['conv'], keep_unknown=bool(case.get('keep_unknown')))
             violations.append({'signature': sig, 'detail': {'case': case, 'doc': doc.name, 'result': short(res),
                                                             'data': (data if isinstance(data, str) else
                                                                      data.decode('utf-8', 'replace'))[:600]}})
